@@ -1285,6 +1285,69 @@ def search(ctx, model, why):
     scico = common.setup_scico()
     oracle = _oracle(scico)
     rng = ctx.rng
+    if why is not None:
+        # broken generated obligation: targeted panel on the functions whose pinned table rows differ
+        import proxcalc_translate
+
+        rows = proxcalc_translate.differing_rows()
+        ctx.extra["differing_table_rows"] = rows
+        soracle = _sql2_oracle(scico)
+
+        def trees(c, stream="valid", n_=(120, 600)):
+            for _ in range(c.n(*n_)):
+                run_tree_case(c, model, scico, gen_tree_case(c, stream), oracle, stream)
+
+        def same_obj(c):
+            for _ in range(c.n(30, 250)):
+                case = G.gen_same_object_case(c.rng)
+                shape = G.norm_shape(case["shape"])
+                case["x"] = G.random_arg_json(c.rng, shape, case["cplx"])
+                case["v"] = G.random_arg_json(c.rng, shape, case["cplx"], scale=4.0)
+                case["lam"] = f2b(G.pos_dyadic(c.rng))
+                run_tree_case(c, model, scico, case, oracle, "same-object")
+
+        def translate(c):
+            for _ in range(c.n(40, 400)):
+                case = G.gen_translate_case(c.rng)
+                shape = G.norm_shape(case["shape"])
+                case["x"] = G.random_arg_json(c.rng, shape, False)
+                case["v"] = G.random_arg_json(c.rng, shape, False)
+                case["lam"] = f2b(G.pos_dyadic(c.rng))
+                run_tree_case(c, model, scico, case, oracle, "translate")
+
+        def sql2(c):
+            for _ in range(c.n(80, 800)):
+                run_sql2_case(c, model, scico, gen_sql2_case(c), soracle)
+
+        S = {"trees": trees, "boundary": lambda c: trees(c, "boundary", (60, 600)), "same": same_obj, "translate": translate, "sql2": sql2,
+             "flags": lambda c: run_loss_flags(c, model, scico), "kwargs": lambda c: run_kwargs(c, model, scico), "unit": lambda c: run_unit_factor(c, scico),
+             "ctor": lambda c: run_sql2_ctor(c, scico), "scale": lambda c: run_scale_kinds(c, model, scico), "sep": lambda c: run_sep_plain(c, model, scico),
+             "moreau": lambda c: run_moreau(c, scico), "w": lambda c: run_sql2_weights_shape(c, model, scico)}
+        pick = []
+        for r_ in rows:
+            cls, _, meth = r_.partition(".")
+            if cls == "SquaredL2Loss":
+                pick += ["sql2", "w", "ctor", "flags", "trees"]
+            elif cls in ("SquaredL2AbsLoss", "SquaredL2SquaredAbsLoss", "PoissonLoss"):
+                pick += ["flags", "ctor", "unit"]
+            elif cls == "SeparableFunctional":
+                pick += ["same", "sep", "trees", "kwargs"]
+            elif cls == "ScaledFunctional":
+                pick += ["trees", "boundary", "scale", "kwargs", "moreau"]
+            elif cls == "Loss":
+                pick += ["translate", "trees", "unit", "kwargs", "flags"]
+            elif cls == "Functional":
+                pick += ["moreau", "trees", "kwargs"]
+            elif cls in ("FunctionalSum", "ZeroFunctional"):
+                pick += ["trees"]
+        if not pick:
+            pick = ["trees", "boundary", "flags", "scale", "same", "translate", "sql2", "kwargs", "unit", "ctor", "sep", "moreau", "w"]
+        seen, order = set(), []
+        for k_ in pick:
+            if k_ not in seen:
+                seen.add(k_)
+                order.append(S[k_])
+        return G.panel(ctx, order, rows)
     for _ in range(ctx.n(40, 400)):
         cplx = bool(rng.integers(2))
         shape = G.random_shape(rng, bool(rng.integers(2)))
